@@ -586,6 +586,25 @@ the raw line minus at most one trailing CR; in strict mode the line itself -/
 def lineLen (cfg : Cfg) (raw : Bytes) : Nat :=
   if cfg.lax then raw.length - (if raw.getLast? == some 13 then 1 else 0) else raw.length
 
+/-- the limit in force for the next line: `max_line_size` for a start line, `max_field_size`
+for everything after it -/
+def maxLenFor (cfg : Cfg) (st : St) : Nat := if st.lines.isEmpty then cfg.maxLine else cfg.maxField
+
+/-- a complete line (raw bytes before the terminator) is checked and appended to `lines` -/
+def acceptLine (cfg : Cfg) (st : St) (raw : Bytes) : Except Err (List Bytes) :=
+  let line := if cfg.lax then rstrip (· == 13) raw else raw
+  if lineLen cfg raw > maxLenFor cfg st then .error .lineTooLong else
+  let lines := st.lines ++ [line]
+  if lines.length > cfg.maxHeaders then .error .badHttpMessage else .ok lines
+
+/-- no terminator in the buffer: the early checks, then the buffer is kept as the tail -/
+def partialLine (cfg : Cfg) (st : St) (data : Bytes) (evs : List Ev) : FeedOut :=
+  if data.any (· == 10) then
+    { st := { st with tail := data, failed := true }, evs, rest := [], err := some .badHttpMessage }
+  else if tailLen cfg data > maxLenFor cfg st then
+    { st := { st with tail := data, failed := true }, evs, rest := [], err := some .lineTooLong }
+  else { st := { st with tail := data }, evs, rest := [], err := none }
+
 /-- the `while` loop of `feed_data` over `data` (already `tail + data`).  `fuel` bounds the
 iterations: each one consumes at least one byte or stops. -/
 def feedLoop (cfg : Cfg) (urlOk : Bool → Bytes → Bool) :
@@ -602,26 +621,16 @@ def feedLoop (cfg : Cfg) (urlOk : Bool → Bytes → Bool) :
           feedLoop cfg urlOk fuel st (data.drop (sepLen cfg.lax)) evs
         else if st.shouldClose then { st := { st with failed := true }, evs, rest := [], err := some .badHttpMessage }
         else
-          let raw := data.take pos
-          let line := if cfg.lax then rstrip (· == 13) raw else raw
-          let maxLen := if st.lines.isEmpty then cfg.maxLine else cfg.maxField
-          if lineLen cfg raw > maxLen then { st := { st with failed := true }, evs, rest := [], err := some .lineTooLong } else
-          let lines := st.lines ++ [line]
-          if lines.length > cfg.maxHeaders then { st := { st with failed := true }, evs, rest := [], err := some .badHttpMessage } else
-          let data := data.drop (pos + sepLen cfg.lax)
-          if line.isEmpty then
-            match onHeaderBlock cfg urlOk st lines with
-            | .error e => { st := { st with lines := [], failed := true }, evs, rest := [], err := some e }
-            | .ok (st', evs', sc) => feedLoop cfg urlOk fuel { st' with shouldClose := sc } data (evs ++ evs')
-          else feedLoop cfg urlOk fuel { st with lines } data evs
-      | none =>
-        if data.any (· == 10) then
-          { st := { st with tail := data, failed := true }, evs, rest := [], err := some .badHttpMessage }
-        else
-          let maxLen := if st.lines.isEmpty then cfg.maxLine else cfg.maxField
-          if tailLen cfg data > maxLen then
-            { st := { st with tail := data, failed := true }, evs, rest := [], err := some .lineTooLong }
-          else { st := { st with tail := data }, evs, rest := [], err := none }
+          match acceptLine cfg st (data.take pos) with
+          | .error e => { st := { st with failed := true }, evs, rest := [], err := some e }
+          | .ok lines =>
+            let data := data.drop (pos + sepLen cfg.lax)
+            if (lines.getLast?.getD []).isEmpty then
+              match onHeaderBlock cfg urlOk st lines with
+              | .error e => { st := { st with lines := [], failed := true }, evs, rest := [], err := some e }
+              | .ok (st', evs', sc) => feedLoop cfg urlOk fuel { st' with shouldClose := sc } data (evs ++ evs')
+            else feedLoop cfg urlOk fuel { st with lines } data evs
+      | none => partialLine cfg st data evs
     | some p =>
       let (r, pevs) := payloadFeed cfg p data
       let evs := evs ++ pevs
